@@ -167,6 +167,15 @@ c16!(c16_std_quad_no_panic, 6, {
     core::mem::forget(root);
 });
 
+//@ C16 c16_std10_read_size65535 quick default STD (TH095+): read_instr on arbitrary header bytes whose size field is 65535 (the largest 16-bit value) returns Ok or Err and never panics (no sign extension into an absurd allocation; the short buffer ends in an end-of-file error)
+c16!(c16_std10_read_size65535, 12, read_instr_never_panics::<8>(&StdHooks10, 6, 2, 65535));
+
+//@ C16 c16_std10_read_any12 quick default STD (TH095+): read_instr on 12 ARBITRARY bytes (size field symbolic too: every value, including sizes beyond the buffer, which end in an end-of-file error) returns Ok or Err and never panics
+c16!(c16_std10_read_any12, 16, read_instr_never_panics::<12>(&StdHooks10, 0, 0, 0));
+
+//@ C16 c16_std06_read_any20 quick default STD (TH06-09): read_instr on 20 ARBITRARY bytes (size field symbolic too: every value, including sizes beyond the buffer, which end in an end-of-file error) returns Ok or Err and never panics
+c16!(c16_std06_read_any20, 24, read_instr_never_panics::<20>(&StdHooks06, 0, 0, 0));
+
 #[cfg(kani)]
 #[path = "/verif/.cache/playback/std.rs"]
 mod playback;
